@@ -16,6 +16,8 @@ import (
 
 func init() { Registry["C08"] = runC08 }
 
+type c08CancelKey struct{}
+
 type c08Handler struct {
 	Name   string
 	Sub    string
@@ -28,7 +30,7 @@ type c08Handler struct {
 // output shape of the handler function for one message
 //
 //	none | one | two | self (returns the consumed message) | twice (one fresh object twice) | err (error with a message) | mw (no-publisher handler: middleware adds an output)
-var c08Shapes = []string{"none", "one", "two", "self", "twice", "err"}
+var c08Shapes = []string{"none", "one", "two", "self", "twice", "err", "earlyack"}
 
 func c08Options() []c08Handler {
 	var opts []c08Handler
@@ -185,6 +187,14 @@ func c08Run(r *tr.Run, hs []c08Handler, rng *rand.Rand) {
 			case "err":
 				outs = []*message.Message{fresh(1)}
 				err = errScripted
+			case "earlyack":
+				// the handler settles the message itself -- the subscriber ends the delivery's context at once, as GoChannel does -- and still returns an output
+				r.Emit("hself", "m", m, "kind", "ack")
+				msg.Ack()
+				if c, ok := msg.Context().Value(c08CancelKey{}).(context.CancelFunc); ok {
+					c()
+				}
+				outs = []*message.Message{fresh(1)}
 			case "shared":
 				shared.UUID = msg.UUID + ".o1"
 				outs = []*message.Message{shared}
@@ -269,6 +279,14 @@ func c08Run(r *tr.Run, hs []c08Handler, rng *rand.Rand) {
 					}
 					shape[m] = sh
 					consumed[m] = message.NewMessage(prefix+m, []byte("in"))
+					{
+						// the delivery's context can be ended by whoever settles the message (the "earlyack" handlers do)
+						holder := &struct{ cancel context.CancelFunc }{}
+						base := context.WithValue(context.Background(), c08CancelKey{}, context.CancelFunc(func() { holder.cancel() }))
+						mctx, mcancel := context.WithCancel(base)
+						holder.cancel = mcancel
+						consumed[m].SetContext(mctx)
+					}
 					ems = append(ems, em{m, sn, tp, fmt.Sprintf("%s/%s/%d", sn, tp, idx), spo, make(chan struct{})})
 				}
 			}
